@@ -22,6 +22,7 @@ SUBMISSIONS = {
     # a registered module reached through a dotted import, with the beginner mistake `plt.title = ...`
     "pltassign": "def add(a, b):\n    return a + b\nimport matplotlib.pyplot as plt\nplt.title = 'My Plot'\nplt.plot([1, 2])\nplt.show()\nprint('hello')\nprint(add(1, 1))\n",
     "pltcall": "def add(a, b):\n    return a + b\nimport matplotlib.pyplot as plt\nplt.title('My Plot')\nplt.plot([1, 2])\nplt.show()\nprint('hello')\nprint(add(1, 1))\n",
+    "uselen": "print('hello')\nprint(len('abc'))\n",
     "methodcall": ("def add(a, b):\n    return a + b\nname = ' ada '.strip()\nprint(name.upper())\nword = 'x'\nprint(word.upper())\n"
                    "pair = (1, 2)\nprint(pair.count(1))\nnums = [1].copy()\nnums.append(2)\nprint('hello')\nprint(add(1, 1))\n"),
 }
@@ -64,6 +65,11 @@ SCRIPTS = {
     "tifa_types": ("from pedal import *\nfrom pedal.tifa import tifa_analysis\n"
                    "tifa_analysis()\nensure_import('math')\nprevent_operation('/')\n"),
     "classhook": ("from pedal import *\nexplain('always', label='always_wrong', priority='low')\n"),
+    # two DIFFERENT scripts (graded under the same instructor file name) whose own function fails when student code calls it
+    "raiser_a": ("from pedal import *\ndef broken(x):\n    raise ValueError('from script A')\n"
+                 "mock_function('len', broken)\nrun()\n"),
+    "raiser_b": ("from pedal import *\ndef broken(x):\n    return int('not a number (script B)')\n"
+                 "mock_function('len', broken)\nrun()\n"),
 }
 
 SLOTS = ["feedback", "suppressions", "hiddens", "hooks", "tooldata", "formatter", "overrides", "pools",
